@@ -30,6 +30,19 @@ pub enum VerifOp {
     DocBegin { tokens: Vec<LuaTokenData> },
     /// an `EatToken` pushed by the doc parser
     DocEat { kind: LuaTokenKind, range: SourceRange },
+    /// `LuaDocParser::bump`; `skip` encodes which kinds `calc_next_current_token` eats on its own in the current
+    /// doc-lexer state: 0 = DocContinue/EndOfLine/Whitespace, 1 = Whitespace, 2 = EndOfLine/Whitespace, 3 = none
+    DocBump { skip: u8 },
+    /// the `eat_current_and_lex_next` call of `bump_to_end`
+    DocEatLex,
+    /// `re_calc_detail` past its `is_invalid` guard (current := None, lexer reset to the current token's start)
+    DocRecalcDetail,
+    /// `re_calc_cast_type` past its guard (lexer reset to the current token's start, current token re-lexed)
+    DocRecalcCast,
+    /// the doc parser's current token kind is overwritten (set_current_token_kind, Trivia retag, TkDocDetail)
+    DocSetKind(LuaTokenKind),
+    /// one result of `LuaDocLexer::lex` inside `lex_token`
+    DocLex { kind: LuaTokenKind, range: SourceRange },
     DocEnd,
 }
 
